@@ -14,7 +14,7 @@ META = {
     "level": "exploration",
     "rule": ("case = {HUGR case (program AST, history?, metadata?), render configs}; distinct by JSON; non-trivial as "
              "for C01 (>= 6 nodes and an Ext/Dom/order/CF/static edge, poly call or insert_*)"),
-    "required": ["monitor:render", "monitor:render-default-config", "monitor:nodes", "monitor:clusters", "monitor:edges", "monitor:labels",
+    "required": ["monitor:repo-test-documents", "monitor:render", "monitor:render-default-config", "monitor:nodes", "monitor:clusters", "monitor:edges", "monitor:labels",
                  "monitor:unchanged", "monitor:config-independence", "feature:order-edge", "feature:cf-edge",
                  "feature:static-edge", "feature:metadata", "feature:ext-op-name", "monitor:parser-selftest"],
     "reach": ["hugr.hugr.render:DotRenderer.render", "hugr.hugr.render:DotRenderer._viz_node",
@@ -249,6 +249,19 @@ def run(ctx):
     if ctx.shard == 0:
         selftest(ctx)
     allcfg = [(p, q) for p in ("default", "nb", "zx") for q in (False, True)]
+    if ctx.shard == 1 % ctx.nshards:
+        from vf.repo_corpus import documents
+
+        for c in documents():
+            case = {**c, "configs": [list(x) for x in allcfg] + [[None, False]]}
+
+            def go(case=case):
+                h, _ = c02.build(case)
+                check_render(ctx, h, case, "render", [tuple(x) for x in case["configs"]])
+
+            ctx.count("monitor:repo-test-documents")
+            ctx.guard("render", case, go)
+            ctx.case("render", case, len(c["doc"]["nodes"]) >= 6)
     for i in ctx.mine(ctx.n(800, 25000)):
         r = ctx.rng("render", i)
         case = {"prog": gen_program(r, budget=25)}
